@@ -76,12 +76,12 @@ def _simcam_sources(t):
     t.verif("harness/simcam/simcam.cpp")
     t.verif("engine/vsim/vsim.cpp")
     ub = ["-fsanitize=alignment,bounds", "-fno-sanitize-recover=alignment,bounds"]
-    t.repo(DRV + "simcams/simulated.camera.c", ub)
+    t.repo(DRV + "simcams/simulated.camera.c", ub + EDGE_HOOK)  # fine profile (see _rt_sources)
     t.repo(DRV + "simcams/imfill.pattern.cpp", ub)
     t.repo(DRV + "simcams/popcount.cpp")
     t.repo(DRV + "simcams/3rdParty/pcg-c-basic-0.9/pcg_basic.c")
     t.repo(DRV + "basics.driver.c")
-    t.repo(CORE + "acquire-device-hal/device/hal/camera.c")
+    t.repo(CORE + "acquire-device-hal/device/hal/camera.c", EDGE_HOOK)
     t.repo(CORE + "acquire-device-hal/device/hal/driver.c")
     t.repo(CORE + "acquire-device-properties/device/props/components.c")
     t.repo(CORE + "acquire-device-properties/device/props/device.c")
